@@ -1803,3 +1803,36 @@ def tmgr_add_pilots(case, rp):
         if set(m._pilots) != set(p.uid for p in ps):
             return dict(confirmed=True, detail='pilots kept: %s' % sorted(m._pilots), input=dict(n_pilots=n))
     return dict(confirmed=False, detail='add_pilots with 1..3 pilots registers the callback with each')
+
+
+@builder('pmgr/launching/base.py:PMGRLaunchingComponent._prepare_pilot#nodes')
+def pilot_nodes(case, rp):
+    """the real sizing statement of _prepare_pilot, executed for small figures"""
+    import math
+    n = 0
+    for cores in (0, 1, 7, 8, 9, 64):
+        for gpus in (0, 1, 5, 8):
+            for cpn in (None, 0, 1, 8):
+                for gpn in (None, 0, 2, 4):
+                    for nodes in (0, 3):
+                        n += 1
+                        env = dict(requested_nodes=nodes, requested_cores=cores, requested_gpus=gpus,
+                                   avail_cores_per_node=cpn, avail_gpus_per_node=gpn, math=math)
+                        try:
+                            exec_fragment(rp, 'pmgr/launching/base.py', 'PMGRLaunchingComponent._prepare_pilot',
+                                          "marker:raise RuntimeError('use \"cores\" in PilotDescription')", env)
+                        except RuntimeError:
+                            if nodes and not cpn: continue
+                            return dict(confirmed=True, detail='sizing raised RuntimeError', input=dict(env, math=None))
+                        got = env['requested_nodes']
+                        inp = dict(nodes=nodes, cores=cores, gpus=gpus, cores_per_node=cpn, gpus_per_node=gpn)
+                        if nodes:
+                            if got != nodes: return dict(confirmed=True, detail='explicit node count %s became %s' % (nodes, got), input=inp)
+                            continue
+                        if cpn and got * cpn < cores:
+                            return dict(confirmed=True, detail='%s node(s) of %s cores for %s requested cores' % (got, cpn, cores), input=inp)
+                        if gpn and got * gpn < gpus:
+                            return dict(confirmed=True, detail='%s node(s) of %s GPUs for %s requested GPUs' % (got, gpn, gpus), input=inp)
+                        if cpn and gpn and got >= 1 and (got - 1) * cpn >= cores and (got - 1) * gpn >= gpus:
+                            return dict(confirmed=True, detail='%s nodes requested where %s would do' % (got, got - 1), input=inp)
+    return dict(confirmed=False, detail='%d sizing cases hold natively' % n)
